@@ -10,7 +10,7 @@ use serde_json::json;
 use serde_saphyr::{Commented, FlowMap, FlowSeq, FoldStr, FoldString, LitStr, LitString, SpaceAfter};
 use std::collections::BTreeMap;
 
-pub const COMMENTS: [&str; 4] = ["note", "a # b: c", "line1\nline2: x", " - [x, {"];
+pub const COMMENTS: [&str; 10] = ["note", "a # b: c", "line1\nline2: x", " - [x, {", "x\rinjected: 1", "x\0y", "x\u{85}k: 1", "x\u{2028}k: 1\u{2029}- y", "\u{feff}x\x1b[31m", "x\r\ny: 2"];
 
 #[derive(Clone, Copy, Debug, PartialEq, Eq, Hash, Serialize, Deserialize)]
 pub enum Wrap {
@@ -617,6 +617,53 @@ fn static_pass(acc: &mut Acc, opts: &[SerOpts]) {
     }
 }
 
+/// Text a block scalar or a comment cannot carry verbatim (line breaks other than LF, NUL, other control
+/// characters, a byte-order mark), under LitStr / FoldStr and inside comments, in every one-level context; and lines
+/// FoldStr must not wrap.
+fn control_pass(p: &C20, acc: &mut Acc, opts: &[SerOpts]) {
+    let mut texts: Vec<String> = ["a\rb", "a\0b", "\ra", "a\r", "a\u{85}b", "a\x1bb", "a\u{2028}b", "a\x7fb", "\u{feff}a", "a\tb", "\ta", "a\r\nb", "a\u{9b}b"].iter().map(|s| s.to_string()).collect();
+    texts.push(format!("\t{}", "word ".repeat(30)));
+    texts.push(format!(" {}", "word ".repeat(30)));
+    texts.push(format!("{}\n", "word ".repeat(30)));
+    texts.push(format!("{}\tword", "word ".repeat(30)));
+    let mut decorated: Vec<DV> = Vec::new();
+    for t in &texts {
+        for w in [Wrap::Lit, Wrap::Fold] {
+            if w == Wrap::Fold && t.trim_end_matches('\n').contains('\n') {
+                continue;
+            }
+            decorated.push(DV::W(w, Box::new(DV::S(t.clone()))));
+            decorated.push(DV::W(Wrap::Commented(1), Box::new(DV::W(w, Box::new(DV::S(t.clone()))))));
+        }
+    }
+    for ci in 4..COMMENTS.len() as u8 {
+        for leaf in [DV::I(7), DV::S("s".into()), DV::Null, DV::S("l1\nl2".into()), DV::Seq(vec![DV::I(7)])] {
+            decorated.push(DV::W(Wrap::Commented(ci), Box::new(leaf)));
+        }
+    }
+    let mut cases = Vec::new();
+    for d in &decorated {
+        let x = || d.clone();
+        let vals = [
+            x(),
+            DV::Seq(vec![x(), DV::I(7)]),
+            DV::Map(vec![("k".into(), x()), ("l".into(), DV::I(7))]),
+            DV::Struct(vec![("f".into(), x()), ("g".into(), DV::I(7))]),
+            DV::Seq(vec![DV::Map(vec![("k".into(), x()), ("l".into(), DV::I(7))])]),
+            DV::Variant(Box::new(x())),
+            DV::Map(vec![("k".into(), DV::Seq(vec![x(), DV::I(7)])), ("l".into(), DV::I(7))]),
+        ];
+        for v in vals {
+            for o in opts {
+                cases.push(Case { val: v.clone(), opts: *o });
+            }
+        }
+    }
+    acc.notes.insert("control_pass".into(), json!({"texts_under_lit_fold": texts.len(), "comments": COMMENTS.len() - 4, "contexts": 7, "cases": cases.len()}));
+    let a = run_list(p, &cases);
+    *acc = std::mem::take(acc).merge(a);
+}
+
 pub fn option_vectors(tier: Tier) -> Vec<SerOpts> {
     let mut v = vec![SerOpts::default()];
     let d = SerOpts::default();
@@ -669,6 +716,7 @@ pub fn run(ctx: &Ctx) -> i32 {
         decorated_total += a.evaluations;
         acc = acc.merge(a);
     }
+    control_pass(&p, &mut acc, &opts);
     static_pass(&mut acc, &opts);
     acc.samples.truncate(0);
     let sample = DV::Struct(vec![("f".into(), DV::W(Wrap::SpaceAfter, Box::new(DV::Seq(vec![DV::W(Wrap::Lit, Box::new(DV::S("keep\n\n".into())))])))), ("g".into(), DV::W(Wrap::Commented(1), Box::new(DV::I(7))))]);
